@@ -226,6 +226,8 @@ PROPS["C16"]["tasks"] = PROPS["C16"]["tasks"] + ["Market._execute_orders", "Mark
 for _p in ("C13", "C18"):
     PROPS[_p]["tasks"] = PROPS[_p]["tasks"] + ["Simulator.__init__[registries]"]
 PROPS["C12"]["tasks"] = PROPS["C12"]["tasks"] + ["Fundamentals.get_fundamental_prices"]
+for _p in ("C17", "C06"):
+    PROPS[_p]["tasks"] = PROPS[_p]["tasks"] + ["IndexMarket.get_fundamental_index"]
 from .census import CALLERS as _CALLERS
 for _g, (_ps, _r, _t) in _CALLERS.items():
     for _p in _ps:
